@@ -306,9 +306,12 @@ impl Expr {
                     if let Some(ty) = ty {
                         let ty = ty.disregard_distractors(false);
 
-                        if ty.is_optional().1.is_some() && fallback.is_optional().1.is_some() {
+                        if ty.is_optional().1.is_some()
+                            && fallback.is_optional().1.is_some()
+                            && !ty.eq_complex(&fallback, flags)
+                        {
                             // only check if neither of the operands is `nil`
-                            assert_eq!(ty, &fallback);
+                            bail!("both sides of `or` must have the same type, found `{ty}` and `{fallback}`");
                         }
 
                         ty.clone()
@@ -317,10 +320,9 @@ impl Expr {
                         fallback
                     }
                 } else {
-                    assert_eq!(
-                        primary.disregard_distractors(false),
-                        fallback.disregard_distractors(false)
-                    );
+                    if !primary.eq_complex(&fallback, flags) {
+                        bail!("both sides of `or` must have the same type, found `{primary}` and `{fallback}`");
+                    }
                     primary
                 })
             }
